@@ -545,14 +545,19 @@ func checkSampleWrite(c *Ctx, rule string) {
 	var kfObj types.Object
 	if okKf {
 		kfObj = wb.localVar("keyframe")
-		n := 0
+		n, nvideo := 0, 0
 		for _, ic := range inits {
+			// the audio-only container is started with dimensions 0, 0
+			if tv := info.Types[ic.Args[0]]; tv.Value != nil && tv.Value.String() == "0" {
+				continue
+			}
+			nvideo++
 			s, _ := ff.At(ic)
 			if s != nil && kfObj != nil && s.HasFact(mkFact(true, "true", TVar(kfObj), nil)) {
 				n++
 			}
 		}
-		okKf = n >= 1
+		okKf = nvideo >= 1 && n == nvideo
 		// and nobody else calls initWriter
 		for _, cs := range p.CallSites() {
 			if fnIs(calleeOf(cs), "diskwriter", "diskConn", "initWriter") && cs.In != wb {
